@@ -17,6 +17,8 @@
 #include "verif.h"
 #include "alloc.h"
 #include "ref_format.h"
+#include <complex>
+#include <filesystem>
 #include "st_format.h"
 #include "st_iostream.h"
 #include "st_stdio.h"
@@ -229,10 +231,13 @@ static void check_values(Ctx &c, const std::string &fmt)
 {
     const char *p = g_arena.place(fmt.c_str(), fmt.size() + 1);
     static const char HI5[] = "\xA3\xA9\xB0\xB1\xB2", HI2[] = "\x80\x80", HIMIX[] = "\xBF\xBFz\xC3";
-    for (int k = 0; k < 14; ++k) {
+    for (int k = 0; k < 17; ++k) {
         vf::events_reset();
         vf::Outcome o = vf::guard([&] {
             switch (k) {
+            case 14: (void)ST::format(p, std::complex<double>(-1.5e300, 2.5e-300)); break;
+            case 15: (void)ST::format(p, std::filesystem::path("dir/file.txt")); break;
+            case 16: (void)ST::format(p, (const char8_t *)u8"caf\u00e9", u8"x"[0]); break;
             case 0: (void)ST::format(p, char16_t(0xD800)); break;
             case 1: (void)ST::format(p, char16_t(0xDFFF)); break;
             case 2: (void)ST::format(p, char32_t(0x110000)); break;
@@ -251,9 +256,10 @@ static void check_values(Ctx &c, const std::string &fmt)
         });
         VF_COUNT("ops");
         VF_COUNT("validated");
-        static const char *VN[14] = {"char16_t D800", "char16_t DFFF", "char32_t 110000", "char32_t DC00", "wchar_t D800", "int -1", "int 0xD800",
+        static const char *VN[17] = {"char16_t D800", "char16_t DFFF", "char32_t 110000", "char32_t DC00", "wchar_t D800", "int -1", "int 0xD800",
                                      "long long 2^32+0x41", "LLONG_MIN", "format_latin_1 + high bytes", "substitute_invalid + continuation bytes",
-                                     "assume_valid + high bytes", "substitute_invalid + std::string of continuation bytes", "ST::string of continuation bytes"};
+                                     "assume_valid + high bytes", "substitute_invalid + std::string of continuation bytes", "ST::string of continuation bytes",
+                                     "std::complex<double>", "std::filesystem::path", "const char8_t* text + char8_t"};
         bool expected_assert = o.kind == vf::EX_ASSERT && o.what.find(CHAR_PAD_MSG) != std::string::npos && k <= 8 &&
                                ref::contract_assert_possible(ref::parse(fmt), {true});
         switch (o.kind) {
